@@ -89,6 +89,14 @@ example : startTLSOk ⟨false, true, "", "localhost"⟩ ⟨true, true, ["other.e
 example : startTLSOk ⟨true, false, "", "localhost"⟩ ⟨false, false, []⟩ = true := by decide
 example : startTLSOk ⟨false, true, "alt.example", "localhost"⟩ ⟨true, true, ["alt.example"]⟩ = false := by decide
 
+/-- **The gate on the WebSocket transport**: unless insecure connections were allowed, nothing but the stream
+opening is written on a plain `ws:` connection, and whatever is written beyond it on a `wss:` connection is written
+under the secure flag. -/
+theorem C04_ws_gate (insecure wss : Bool) :
+    gateOk ⟨insecure⟩ (wsWrites insecure wss) = true ∧
+    ((wsWrites insecure wss).all fun w => !w.secure || wss) = true := by
+  cases insecure <;> cases wss <;> decide
+
 end XmppVerif.Props.C04
 
 #print axioms XmppVerif.Props.C04.afterAuth_secure
@@ -96,3 +104,4 @@ end XmppVerif.Props.C04
 #print axioms XmppVerif.Props.C04.C04_secure_only_after_tls
 #print axioms XmppVerif.Props.C04.C04_starttls_verified
 #print axioms XmppVerif.Props.C04.C04_history
+#print axioms XmppVerif.Props.C04.C04_ws_gate
